@@ -156,3 +156,34 @@ Section Rel.
     | _ => true
     end.
 End Rel.
+
+(* plain data: no lambda and no callable anywhere in the value *)
+Fixpoint data (v : val) : bool :=
+  match v with VSeq _ l => forallb data l | VClos _ _ _ | VPrim _ => false | _ => true end.
+
+(* a state the two runs can share: no lambda stored anywhere, none of the names the rewritten code relies on is
+   rebound, and no comprehension frame holds a temporary *)
+Section Start.
+  Variable W : Type.
+  Variable p : rwp.
+  Definition vars_ok (comp : bool) (l : list (name * val)) : bool :=
+    forallb (fun xv => fo (snd xv) && negb (special p (fst xv)) && negb (comp && is_tmp (fst xv))) l.
+  Definition start_ok (s : state W) : bool :=
+    forallb (fun fr => vars_ok (f_comp fr) (f_vars fr)) (s_frames W s) && vars_ok false (s_gvars W s).
+
+  (* the closure-call evaluator one unit of fuel below [n] *)
+  Definition below typeof tbl callv binop getattr getitem truthy fmt ugl mself reg (n : nat) : evalT W :=
+    match n with
+    | 0 => fun _ _ _ => None
+    | S m => eval W p typeof tbl callv binop getattr getitem truthy fmt ugl mself reg m
+    end.
+End Start.
+
+(* a name of another function's dispatch data: ___OVLD<j> / ___MAP<j> with j not the id the rewriting is for,
+   ___CODE<c> with c not this rewriting's code number *)
+Definition foreign (p : rwp) (x : name) : bool :=
+  match x with
+  | NOvld j | NMap j => negb (Nat.eqb j (p_id p))
+  | NCode c => negb (Nat.eqb c (p_code p))
+  | _ => false
+  end.
